@@ -245,7 +245,7 @@ def run(tier, replay=None):
     if replay:
         print(json.dumps(json.load(open(replay)), indent=1)[:3000])
         return 0
-    proof = common.prove(report, "C08", ["callbacks", "catalogue"], extra_targets=["Run/C08Run.vo"])
+    proof = common.prove(report, "C08", ["callbacks", "catalogue", "dispatch"], extra_targets=["Run/C08Run.vo"])
     ok, log = common.coq_make(["Run/C08Run.vo"])
     if not ok:
         report.violation({"kind": "broken-obligation", "obligation": "Run/C08Run.vo does not build against the regenerated callback tables", "detail": log[-1500:], "also": proof.get("broken")}, False, tag="modelbuild")
